@@ -15,7 +15,7 @@ pub fn run(mode: &str, a: &Args) -> i32 {
     }
 }
 
-const KINDS: [(&str, &str); 14] = [
+const KINDS: [(&str, &str); 19] = [
     ("map", "a: 1\n"),
     ("seq", "[1, 2]\n"),
     ("scalar", "hello\n"),
@@ -30,6 +30,14 @@ const KINDS: [(&str, &str); 14] = [
     ("null", "null\n"),
     ("syntax", "a: b: c\n"),
     ("dup", "a: 1\na: 2\n"),
+    // an earlier document that anchors ONLY containers (no anchored scalar)
+    ("anchor_container", "l: &x [1, 2]\nb: 1\n"),
+    // errors raised on an event that was only peeked (unit given a value, unit variant given a payload)
+    ("unit_given_value", "u: 5\nb: 1\n"),
+    ("variant_given_payload", "e: {B: 5}\nb: 1\n"),
+    // a second document that fails before it produces any event
+    ("stray_close", "]\n"),
+    ("bare_alias", "*nowhere\n"),
 ];
 
 fn stream_of(seq: &[usize], explicit_first: bool) -> String {
@@ -50,6 +58,8 @@ fn generate(a: &Args) -> i32 {
     let tys = [
         Ty::Any,
         Ty::Struct(vec![("a", Ty::Option(Box::new(Ty::Int(true, 32)))), ("b", Ty::Option(Box::new(Ty::Int(true, 32))))], false),
+        Ty::Struct(vec![("u", Ty::Option(Box::new(Ty::Unit))), ("e", Ty::Option(Box::new(Ty::Enum("E", vec![("A", VTy::Newtype(Ty::Int(true, 32))), ("B", VTy::Unit)])))),
+                        ("b", Ty::Option(Box::new(Ty::Int(true, 32))))], false),
     ];
     let mut seqs: Vec<Vec<usize>> = vec![vec![]];
     let mut all: Vec<Vec<usize>> = vec![vec![]];
@@ -93,7 +103,7 @@ fn generate(a: &Args) -> i32 {
                 // per-document results, each document parsed on its own
                 let per_doc: Vec<String> = seq.iter().map(|k| run_single(&format!("{}{}", if explicit_first { "---\n" } else { "" }, KINDS[*k].1), ty, &cfg)).collect();
                 let is_nullish = |k: usize| matches!(KINDS[k].0, "empty" | "tilde" | "null");
-                let clean = seq.iter().all(|k| !matches!(KINDS[*k].0, "unterminated" | "syntax" | "with_end" | "alias_prev"));
+                let clean = seq.iter().all(|k| !matches!(KINDS[*k].0, "unterminated" | "syntax" | "with_end" | "alias_prev" | "stray_close" | "bare_alias"));
                 if clean && seq.iter().zip(&per_doc).all(|(k, r)| is_nullish(*k) || r.starts_with("ok")) {
                     // every non-null document succeeds on its own => batch = list of them, iterator = batch
                     let want: Vec<String> = seq.iter().zip(&per_doc).filter(|(k, _)| !is_nullish(**k)).map(|(_, r)| r[3..].to_string()).collect();
@@ -119,7 +129,7 @@ fn generate(a: &Args) -> i32 {
                     }
                 }
                 // iterator continues after a type-level error: a trailing valid map document must still be delivered
-                if seq.len() >= 2 && KINDS[seq[seq.len() - 1]].0 == "map" && seq[..seq.len() - 1].iter().all(|k| !matches!(KINDS[*k].0, "unterminated" | "syntax" | "with_end")) {
+                if seq.len() >= 2 && KINDS[seq[seq.len() - 1]].0 == "map" && seq[..seq.len() - 1].iter().all(|k| !matches!(KINDS[*k].0, "unterminated" | "syntax" | "with_end" | "stray_close" | "bare_alias")) {
                     let last_ok = iter.rsplit(" ; ").next().map(|s| s.starts_with("ok")).unwrap_or(false);
                     if !last_ok {
                         fails.push(serde_json::json!({"id": "C11-iterator-does-not-resume", "what": "the iterator did not deliver the valid document that follows a type-level error", "input": text, "type": ty.tokens(), "observed": iter, "expected": "last item ok"}));
@@ -133,7 +143,7 @@ fn generate(a: &Args) -> i32 {
     let nt = sink.stats.get("distinct_nontrivial").copied().unwrap_or(0);
     sink.finish(&a.out, "docs", serde_json::json!({
         "distinct_nontrivial": nt,
-        "rule": "every sequence of document kinds up to length 2 (quick: plus a third of length 3; thorough: all of length 3 and a quarter of length 4) over 14 kinds (valid map/seq/scalar, empty, ~, null, anchor-defining, aliasing an earlier document's anchor, type error, unterminated flow, with `...`, trailing comment, syntax error, duplicate key), with and without a leading `---`, x {untyped, struct} target x {default budget, no budget}: batch (from_multiple), iterator (read) and single-document entry point vs the model; oracle: batch = list of per-document results, iterator = batch when nothing fails, single rejects a second document, anchors invisible across documents, iterator resumes after a type-level error. Non-trivial = streams with more than one document.",
+        "rule": "every sequence of document kinds up to length 2 (quick: plus a third of length 3; thorough: all of length 3 and a quarter of length 4) over 19 kinds (valid map/seq/scalar, empty, ~, null, anchor-defining (scalar anchor; container-only anchor), aliasing an earlier document's anchor, type error after consumed events, type errors raised on a merely PEEKED event (unit given a value, unit variant given a payload), unterminated flow, with `...`, trailing comment, syntax error, duplicate key, documents that fail before producing an event (stray `]`, alias to nothing)), with and without a leading `---`, x {untyped, struct, struct with unit / enum fields} target x {default budget, no budget}: batch (from_multiple), iterator (read) and single-document entry point vs the model; oracle: batch = list of per-document results, iterator = batch when nothing fails, single rejects a second document, anchors invisible across documents, iterator resumes after a type-level error. Non-trivial = streams with more than one document.",
     }));
     0
 }
